@@ -437,3 +437,111 @@ Proof.
   - destruct (plist_lines_fix (l0 :: r)); [|discriminate]. intro H; inversion H.
     exists (id_suggest IdPlist). eexists. split; [reflexivity|apply id_suggest_is_id].
 Qed.
+
+(* ---------- round 5: settling over the re-loaded file ---------- *)
+Lemma split_nl_app : forall l cur rest, nl_free l = true ->
+  split_nl cur (l ++ rest) = split_nl (rev l ++ cur) rest.
+Proof.
+  induction l as [|c l IH]; intros cur rest H; [reflexivity|].
+  cbn in H. apply andb_prop in H. destruct H as [Hc Hl].
+  cbn [app split_nl]. destruct (c =? 10); [discriminate|].
+  rewrite (IH _ _ Hl). cbn [rev]. rewrite <- app_assoc. reflexivity.
+Qed.
+
+Lemma load_save : forall ls t, forallb nl_free ls = true -> saveable ls t ->
+  load_file (save_file ls t) = (ls, match ls with [] => true | _ => t end).
+Proof.
+  unfold load_file. induction ls as [|l r IH]; intros t H Hs; [reflexivity|].
+  cbn in H. apply andb_prop in H. destruct H as [Hl Hr].
+  destruct r as [|l1 r].
+  - cbn [save_file]. destruct t.
+    + rewrite (split_nl_app l [] [10] Hl). cbn [split_nl]. rewrite N.eqb_refl. cbn [split_nl].
+      rewrite app_nil_r, rev_involutive. reflexivity.
+    + rewrite <- (app_nil_r l) at 1. rewrite (split_nl_app l [] [] Hl). rewrite app_nil_r. cbn [split_nl].
+      destruct Hs as [Hs|Hs]; [discriminate|]. cbn in Hs.
+      destruct (rev l) eqn:E.
+      * exfalso. apply Hs. rewrite <- (rev_involutive l), E. reflexivity.
+      * rewrite <- E, rev_involutive. reflexivity.
+  - change (save_file (l :: l1 :: r) t) with (l ++ 10 :: save_file (l1 :: r) t).
+    rewrite (split_nl_app l [] _ Hl). cbn [split_nl]. rewrite N.eqb_refl.
+    assert (Hs' : saveable (l1 :: r) t) by (destruct Hs as [Hs|Hs]; [left; exact Hs|right; exact Hs]).
+    rewrite (IH t Hr Hs'). rewrite app_nil_r, rev_involutive. reflexivity.
+Qed.
+
+Lemma nl_free_rev cur : nl_free cur = true -> nl_free (rev cur) = true.
+Proof.
+  unfold nl_free. intro H. rewrite forallb_forall in H. apply forallb_forall.
+  intros y Hy. apply H. apply in_rev. exact Hy.
+Qed.
+
+Lemma rev_not_nil (x : N) cur : rev (x :: cur) <> [].
+Proof. intro E. apply (f_equal (@rev N)) in E. rewrite rev_involutive in E. discriminate. Qed.
+
+Lemma split_nl_nl_free : forall bs cur ls t, nl_free cur = true -> split_nl cur bs = (ls, t) ->
+  forallb nl_free ls = true /\ saveable ls t.
+Proof.
+  induction bs as [|c r IH]; intros cur ls t Hc H; cbn [split_nl] in H.
+  - destruct cur as [|x cur].
+    + injection H as <- <-. split; [reflexivity|left; reflexivity].
+    + injection H as <- <-. split.
+      * pose proof (nl_free_rev _ Hc) as Hr. cbn [forallb rev] in *. rewrite Hr. reflexivity.
+      * right. cbn [last]. apply (rev_not_nil x cur).
+  - destruct (c =? 10) eqn:Ec.
+    + destruct (split_nl [] r) as [ls0 t0] eqn:E. injection H as <- <-.
+      destruct (IH [] ls0 t0 eq_refl E) as [H1 H2]. split.
+      * pose proof (nl_free_rev _ Hc) as Hr. cbn [forallb]. rewrite H1, Hr. reflexivity.
+      * destruct H2 as [H2|H2]; [left; exact H2|right].
+        destruct ls0 as [|a b]; [exfalso; apply H2; reflexivity|exact H2].
+    + apply (IH (c :: cur)); [|exact H]. unfold nl_free in *. cbn [forallb]. rewrite Ec, Hc. reflexivity.
+Qed.
+
+Lemma load_nl_free bs ls t : load_file bs = (ls, t) -> forallb nl_free ls = true /\ saveable ls t.
+Proof. apply split_nl_nl_free. reflexivity. Qed.
+
+(* CheckCvsID: for ALL files on disk (any mixture of LF, CR LF, unterminated last line): save the
+   result -- the inserted line ends in "\n" --, load it again: the check leaves it alone *)
+Theorem cvsid_settles_after_reload k bs ls t ls' t' :
+  load_file bs = (ls, t) -> check_cvsid k ls = Some ls' -> saveable ls' t' ->
+  check_cvsid k (fst (load_file (save_file ls' t'))) = Some (fst (load_file (save_file ls' t'))).
+Proof.
+  intros Hl Hc Hs. destruct (load_nl_free _ _ _ Hl) as [Hn _].
+  assert (Hn' : forallb nl_free ls' = true).
+  { destruct ls as [|l0 r]; [discriminate|]. cbn in Hc. destruct (is_cvsid_k k l0); inversion Hc; subst; [exact Hn|].
+    change (forallb nl_free (id_suggest k :: l0 :: r)) with (nl_free (id_suggest k) && forallb nl_free (l0 :: r)).
+    rewrite Hn, andb_true_r. destruct k; reflexivity. }
+  rewrite (load_save ls' t' Hn' Hs). cbn [fst]. exact (check_cvsid_settles k ls ls' Hc).
+Qed.
+
+Lemma flatten_insert_nl_free sel ins gs gs' : insert_below sel ins gs = Some gs' ->
+  forallb nl_free (flatten gs) = true -> forallb nl_free ins = true -> forallb nl_free (flatten gs') = true.
+Proof.
+  intros E H Hi. destruct (insert_below_flatten _ _ _ _ E) as (a & b & H1 & H2).
+  rewrite H1 in H. rewrite H2. rewrite !forallb_app in *. apply andb_prop in H. destruct H as [Ha Hb].
+  rewrite Ha, Hi, Hb. reflexivity.
+Qed.
+
+(* CheckUsedBy: the same, for all names without white-space or line feed *)
+Theorem used_by_settles_after_reload name bs ls t ls' t' : name_ok name -> nl_free name = true ->
+  load_file bs = (ls, t) -> used_by name ls = Some ls' -> saveable ls' t' ->
+  used_by name (fst (load_file (save_file ls' t'))) = Some (fst (load_file (save_file ls' t'))).
+Proof.
+  intros Hn Hnl Hl Hu Hs. destruct (load_nl_free _ _ _ Hl) as [Hf _].
+  assert (Hf' : forallb nl_free ls' = true).
+  { pose proof Hu as H. unfold used_by in H.
+    assert (He : nl_free (used_by_prefix ++ name) = true)
+      by (unfold nl_free in *; rewrite forallb_app, Hnl; reflexivity).
+    assert (Hg : forallb nl_free (flatten (group (sep_flags true ls))) = true)
+      by (rewrite flatten_group, sep_flags_snd; exact Hf).
+    destruct (_ <? 3)%nat; [inversion H; subst; exact Hf|].
+    destruct (negb (has_par _)); [inversion H; subst; exact Hf|].
+    destruct (found_in _ _).
+    { destruct (has_used_para _ _); [inversion H; subst; exact Hf|].
+      destruct (insert_below (fun _ => true) [] _); [inversion H; subst; exact Hf|discriminate]. }
+    destruct (has_used_para _ _).
+    - destruct (insert_below (para_is_used _) _ _) as [gs'|] eqn:E; [|discriminate]. inversion H; subst.
+      apply (flatten_insert_nl_free _ _ _ _ E Hg). cbn [forallb]. rewrite He. reflexivity.
+    - destruct (insert_below (fun _ => true) _ _) as [gs'|] eqn:E; [|discriminate]. inversion H; subst.
+      apply (flatten_insert_nl_free _ _ _ _ E Hg).
+      destruct (first_para_to_gt1 _); cbn [forallb app]; rewrite He; reflexivity. }
+  rewrite (load_save ls' t' Hf' Hs). cbn [fst]. exact (used_by_settles name ls ls' Hn Hu).
+Qed.
